@@ -62,6 +62,7 @@ var extraProps = map[string][]string{
 	"FLAGS":      {"C01", "C04", "C05", "C08", "C09", "C12"},
 	"ALIAS":      {"C01", "C04", "C05", "C08", "C09", "C12", "C13", "C11"},
 	"COMMIT":     {"C09"}, // a failed operation that leaves a half-applied change breaks the shape the next persist records
+	"NOEMPTY":    {"C13"}, // an entry-less node that gets linked is written: garbage
 	"CACHEAFTER": {"C11"}, // one tree's unfinished write must not make another tree skip its own
 	"ATOMICFILE": {"C18"}, // a successful file Store has written the bytes
 }
